@@ -610,6 +610,13 @@ def execute(program: dict) -> dict:
                 continue
             plan = StreamPlan.from_json(plan_d)
             kwargs = dict(opts)
+            if "extra_cols" in kwargs:
+                # the parameter is an Iterable of names: a list, a tuple, or something that can be walked only once
+                names_ = list(kwargs["extra_cols"])
+                form = (si + len(data)) % 4
+                kwargs["extra_cols"] = [names_, tuple(names_), iter(names_), (nm for nm in names_)][form]
+                if form >= 2:
+                    world.probe("c02.extra_cols_as_one_shot_iterable")
             if step.get("detect") and source in ("path", "bytes") and enc in ("utf-8", "latin-1") and data.isascii():
                 # a pure-ASCII file read with the encoding left to detection: there is nothing to get wrong - every
                 # candidate encoding agrees on these bytes
